@@ -205,7 +205,9 @@ def config_set(ctx: click.Context, key: str, value: str) -> None:
     """
     cfg = ctx.obj["config"]
     converted_value = _convert_value_type(value)
-    cfg[key] = converted_value
+    # Top-level keys are normalised (hyphens to underscores) when a config file is loaded: store the key
+    # the way it is read back, so the new value replaces the old one and is the one that gets validated
+    cfg[key.replace("-", "_")] = converted_value
 
     try:
         _validate_and_report_errors(cfg)
